@@ -844,3 +844,54 @@ class C18(Prop):
     def shrink(self, line):
         t = line.split(" ")
         return [" ".join(t[:i] + t[i + 1:]) for i in range(5, len(t))] + [" ".join(t[:i + 1]) for i in range(5, len(t))]
+
+
+class C13(WorkerProp):
+    id = "C13"
+    module = "Tftp.Props.C13"
+    receiver_clauses = ("cleanup", "fidelity")
+    rule = ("receiver scripts through the real Worker::receive with an abort (peer ERROR, silence, stray garbage) at every kind of point — after j blocks, inside or at the edge of a window — "
+            "x {clean, keep} x windowsize, checking what is left at the path; plus the duplicate-WRQ history (two real workers on one path, the second completes, the stale first one times out) "
+            "in both clean modes; non-trivial = distinct case with at least one receive attempt consumed")
+
+    def generate(self, tier, rng):
+        n = self.n_quick if tier == "quick" else self.n_thorough
+        L = directed_receiver()
+        for _ in range(n):
+            l = gen_receiver(rng, tier)
+            t = l.split(" ")
+            # force an abort at a random point of the script
+            k = rng.randint(6, len(t))
+            t = t[:k] + rng.choice([["E"], ["T"] * 6, ["T", "A1", "T", "T", "O", "T", "T"]])
+            L.append(" ".join(t))
+        for b, w in [(8, 1), (8, 2), (8, 4), (512, 3)]:
+            for clean in (0, 1):
+                for flen in (0, 5, 8, 20, 1500):
+                    L.append("dupwrq %d %d %d gen:%d:%d" % (b, w, clean, flen, b + w))
+        return L
+
+    def oracle(self, line, impl):
+        if line.startswith("dupwrq "):
+            t = line.split(" ")
+            f = content(t[4])
+            sig = "%d:%d" % (len(f), fnv(f))
+            kv = dict(x.split("=") for x in impl.split(" ")) if "=" in impl else {}
+            if kv.get("second") != "ok" or kv.get("after-second") != sig:
+                return ("the most recently accepted upload does not complete with its content", "dupwrq-second")
+            if kv.get("after-stale-timeout") != sig:
+                return ("a stale earlier transfer of the same name removed or altered the completed upload when it timed out "
+                        "(left: %s)" % kv.get("after-stale-timeout"), "dup-wrq-stale-timeout-removes-completed")
+            return None
+        return WorkerProp.oracle(self, line, impl)
+
+    def nontrivial(self, line, impl):
+        return line.startswith("dupwrq") or " | " in impl
+
+    def classify(self, line, impl, res):
+        if line.startswith("dupwrq"):
+            res.count("dupwrq:clean=" + line.split(" ")[3])
+        else:
+            WorkerProp.classify(self, line, impl, res)
+
+    def shrink(self, line):
+        return [] if line.startswith("dupwrq") else WorkerProp.shrink(self, line)
